@@ -10,7 +10,7 @@ RULE = (
     "distinct = hash of the configuration; trivial = no option restricts anything"
 )
 ASSUMPTIONS = ["filter_ and stop are pure functions of the node (the library may evaluate stop more than once per node)"]
-GATES = ["mon.C06.sequence", "C06.stop_on_start", "C06.filtered_with_visible_children", "C06.stop_below_filtered", "C06.empty_group", "C06.maxlevel_le_0", "C06.maxlevel_cuts", "C06.predicate_objects_reused", "C06.predicate_shape.1", "C06.predicate_shape.2", "C06.predicate_shape.3", "C06.predicate_shape.4"]
+GATES = ["mon.C06.sequence", "C06.stop_on_start", "C06.filtered_with_visible_children", "C06.stop_below_filtered", "C06.empty_group", "C06.maxlevel_le_0", "C06.maxlevel_cuts", "C06.predicate_objects_reused", "C06.predicate_shape.1", "C06.predicate_shape.2", "C06.predicate_shape.3", "C06.predicate_shape.4", "C06.maxlevel_int_subclass", "mon.C06.raising_predicate"]
 
 
 def plan(tier, seed, jobs):
@@ -75,6 +75,10 @@ def check_config(ctx, nodes, idmap, tr, par, stop, hidden, maxlevel, case, use_n
             kw["filter_"] = predicate((shape + 1) % 5, lambda n: idmap[id(n)] not in hidden)
     if not (use_none and maxlevel is None):
         kw["maxlevel"] = maxlevel
+        if maxlevel is not None and (len(stop) + len(hidden) + s) % 4 == 3:
+            # the same number as an instance of an int subclass (an IntEnum member, a bool)
+            kw["maxlevel"] = int_like(maxlevel)
+            ctx.count("C06.maxlevel_int_subclass")
     ok = True
     for nm, itcls in ITERS:
         ctx.count("mon.C06.sequence")
@@ -94,6 +98,53 @@ def check_config(ctx, nodes, idmap, tr, par, stop, hidden, maxlevel, case, use_n
             ctx.violation("C06/%s" % nm, "restricted-reference-order",
                           dict(case, start=s, stop=sorted(stop), hidden=sorted(hidden), maxlevel=maxlevel, kwargs=sorted(kw)),
                           expected=exp[nm], observed=obs)
+            ok = False
+    return ok
+
+
+class _Level(int):
+    """An int subclass, as IntEnum members are."""
+
+    def __repr__(self):
+        return "Level(%d)" % int(self)
+
+
+def int_like(n):
+    if n in (0, 1) and n is not True and n is not False:
+        return bool(n)
+    return _Level(n)
+
+
+class PredicateFailed(RuntimeError):
+    """Raised by a user predicate (a RuntimeError subclass, as RecursionError is)."""
+
+
+def check_raising_predicate(ctx, nodes, idmap, tr, case):
+    """A predicate that raises for one admitted node: no iterator may swallow the exception and finish normally."""
+    from ..battery import ITERS
+
+    pre = tr.pre
+    if len(pre) < 2:
+        return True
+    victim = pre[len(pre) // 2]
+    ok = True
+    for which in ("filter_", "stop"):
+        def pred(n, victim=victim, which=which):
+            if idmap[id(n)] == victim:
+                raise PredicateFailed("predicate failed for node %d" % victim)
+            return which == "filter_"
+
+        for nm, itcls in ITERS:
+            ctx.count("mon.C06.raising_predicate")
+            try:
+                got = list(itcls(nodes[tr.s], **{which: pred}))
+                out = "returned %d items" % len(got)
+            except PredicateFailed:
+                continue
+            except Exception as e:  # noqa: B902
+                out = "raised %s" % type(e).__name__
+            ctx.violation("C06/%s/predicate-exception-swallowed" % nm, "user-exception-propagates", dict(case, start=tr.s, raising=which, at_node=victim),
+                          expected="PredicateFailed propagates out of the iteration", observed=out)
             ok = False
     return ok
 
@@ -156,6 +207,9 @@ def run(ctx):
                                      sample=dict(case, start=s, stop=sorted(stop), hidden=sorted(hidden), maxlevel=ml) if ctx.evals % 50021 == 0 else None)
                             if not check_config(ctx, nodes, idmap, tr, par, stop, hidden, ml, case, use_none=(idx % 2 == 0)):
                                 break
+                if tr is not None:
+                    ctx.case((par, s, "raising-predicate"))
+                    check_raising_predicate(ctx, nodes, idmap, tr, {"family": fam, "par": list(par)})
         ctx.exhaustive.append("all ordered trees with %d nodes x every start x maxlevel in {None,-1,0..h+2} x all %d stop sets x all %d filter sets x 5 iterators" % (n, len(allsets), len(allsets)))
     # sampled sets on bigger trees
     nrand = (100000 if T else 400) // ctx.nshards + 1
@@ -235,6 +289,10 @@ def _replay_static(ctx, wit):
     par = c["par"]
     nodes = TR.build(par, c["family"])
     idmap = {id(o): i for i, o in enumerate(nodes)}
+    if "raising" in c:
+        ctx.case(("replay",))
+        check_raising_predicate(ctx, nodes, idmap, TreeRef(gen.children_of(par), c.get("start", 0)), {"family": c["family"], "par": par})
+        return
     tr = TreeRef(gen.children_of(par), c["start"])
     check_config(ctx, nodes, idmap, tr, par, frozenset(c["stop"]), frozenset(c["hidden"]), c["maxlevel"], c, use_none=False)
     check_config(ctx, nodes, idmap, tr, par, frozenset(c["stop"]), frozenset(c["hidden"]), c["maxlevel"], c, use_none=True)
